@@ -6,8 +6,9 @@ from props import qcommon as qc
 
 class Grammar(qc.SyncOps, qc.FullGrammar):
     allow_main = True
+    allow_retarget = True
     thread_kinds = [("async", 4), ("basync", 1), ("sync", 4), ("bsync", 2), ("aaw", 2), ("baaw", 1), ("gasync", 2), ("await", 4), ("work", 1),
-                    ("genter", 2), ("gleave", 3), ("gwait", 3), ("enter_wait", 2), ("gnotify", 1), ("swait", 2), ("ssignal", 2), ("once", 2)]
+                    ("genter", 2), ("gleave", 3), ("gwait", 3), ("enter_wait", 2), ("gnotify", 1), ("swait", 2), ("ssignal", 2), ("once", 2), ("retarget", 1)]
     body_kinds = [("work", 3), ("async", 2), ("sync", 2), ("bsync", 1), ("gleave", 2), ("ssignal", 1), ("once", 1)]
     max_depth = 2
     payload = 1
